@@ -1,12 +1,105 @@
 import GridVerif.Model.Proto
 import GridVerif.Model.Elem
+import GridVerif.Model.NGrid
 
 namespace GridVerif.Driver.C18
-open GridVerif.Proto
+open GridVerif.Proto GridVerif.NGrid
 
-/-- Line-protocol handler of property C18: `C18.<op> args…` ↦ one answer line
-(`none` = malformed, answered `bad-op`). -/
+/-
+  Protocol (points travel as their index in their grid, `α = Nat`; the integrand as its
+  table of values over the product set, row-major with the last domain fastest):
+
+  gridspec := <mode: list|repeat> <nd> <ngrids> <fvec weights₁> … <fvec weights_k>
+  C18.new    mode nd ngrids n₁ … n_k           -> ok | value-error
+  C18.struct gridspec                          -> ok size <mat index combos> <fvec weights>
+  C18.nonvec c gridspec <fvec table>           -> ok value
+  C18.vec    gridspec <fvec table>             -> ok value | value-error
+  C18.vecbad gridspec <fvec table>             -> (integrand returns one value too few) value-error
+  C18.chunks c n                               -> ok k len₁ … len_k   (chunk lengths of n items)
+-/
+
+def parseGrids : Nat → List String → Option (List (Grid Nat Float) × List String)
+  | 0, rest => some ([], rest)
+  | k + 1, toks => do
+    let (w, rest) ← pVec pFloat toks
+    let (gs, rest) ← parseGrids k rest
+    pure (⟨List.range w.length, w⟩ :: gs, rest)
+
+/-- -> (constructor result, remaining tokens) -/
+def parseSpec : List String → Option (Except Err (MGrid Nat Float) × List String)
+  | mode :: nd :: ng :: rest => do
+    let nd ← pNat nd
+    let ng ← pNat ng
+    let (gs, rest) ← parseGrids ng rest
+    match mode with
+    | "list" => pure (MGrid.mk? gs none, rest)
+    | "repeat" => pure (MGrid.mk? gs (some nd), rest)
+    | _ => none
+  | _ => none
+
+def tableFun (g : MGrid Nat Float) (table : List Float) : List Nat → Float :=
+  let sizes := g.domains.map Grid.size
+  fun combo => table.getD (flatIndex sizes combo) (0.0 / 0.0)
+
+def showRes : Except Err Float → String
+  | .ok v => "ok " ++ sFloat v
+  | .error .valueError => "value-error"
+  | .error .typeError => "type-error"
+
 def handle : List String → Option String
+  | "C18.new" :: mode :: nd :: ng :: rest => do
+    let nd ← pNat nd
+    let ng ← pNat ng
+    let ns ← rest.mapM pNat
+    if ns.length ≠ ng then none else
+    let gs : List (Grid Nat Float) := ns.map fun n => ⟨List.range n, List.replicate n 1.0⟩
+    let r ← match mode with
+      | "list" => some (MGrid.mk? gs none)
+      | "repeat" => some (MGrid.mk? gs (some nd))
+      | _ => none
+    match r with
+    | .ok _ => pure "ok"
+    | .error _ => pure "value-error"
+  | "C18.struct" :: spec => do
+    let (r, rest) ← parseSpec spec
+    if rest ≠ [] then none else
+    match r with
+    | .error _ => pure "value-error"
+    | .ok g => pure s!"ok {g.size} {sMat toString g.points} {sFloats g.weights}"
+  | "C18.nonvec" :: c :: spec => do
+    let c ← pNat c
+    let (r, rest) ← parseSpec spec
+    let (table, rest) ← pVec pFloat rest
+    if rest ≠ [] then none else
+    match r with
+    | .error _ => pure "value-error"
+    | .ok g =>
+      if table.length ≠ g.size then none else
+      pure (showRes (.ok (g.integrateNonVec (tableFun g table) c)))
+  | "C18.vec" :: spec => do
+    let (r, rest) ← parseSpec spec
+    let (table, rest) ← pVec pFloat rest
+    if rest ≠ [] then none else
+    match r with
+    | .error _ => pure "value-error"
+    | .ok g =>
+      if table.length ≠ g.size then none else
+      let f := tableFun g table
+      pure (showRes (g.integrateVec fun pre xs => xs.map fun x => f (pre ++ [x])))
+  | "C18.vecbad" :: spec => do
+    let (r, rest) ← parseSpec spec
+    let (table, rest) ← pVec pFloat rest
+    if rest ≠ [] then none else
+    match r with
+    | .error _ => pure "value-error"
+    | .ok g =>
+      if table.length ≠ g.size then none else
+      let f := tableFun g table
+      pure (showRes (g.integrateVec fun pre xs => (xs.map fun x => f (pre ++ [x])).drop 1))
+  | ["C18.chunks", c, n] => do
+    let c ← pNat c
+    let n ← pNat n
+    pure ("ok " ++ sNats ((chunked c (List.range n)).map List.length))
   | _ => none
 
 end GridVerif.Driver.C18
